@@ -13,7 +13,8 @@ DECIDED = ["R04a record table and on-disk headers move together (MUST over all s
            "R04c optimize_storage ends with truncate then clear_free before commit",
            "R04c (cont.) optimize_storage has no early exit",
            "R04c (cont.) the whole compaction pass is one storage transaction",
-           "R04d left-over free regions always get a header (guard compares with zero or two sizes)"]
+           "R04d left-over free regions always get a header (guard compares with zero or two sizes)",
+           "R04e the file is truncated only at boundaries the record table knows (provenance of every truncate argument)"]
 UNDECIDED = ["free-list arithmetic (take_free, take_free_after, mark_free_compact, enlarge_in_place remainders)",
              "byte equality of values after arbitrary histories"]
 
@@ -104,6 +105,41 @@ def optimize_rule(ctx):
                    [b.loc(i) for i in in_loop], len(opens)), b.where)
 
 
+def truncate_rule(ctx, rule="R04e"):
+    """The file shrinks only to a boundary the record table knows: the start of the record that has just been removed,
+    the end of the (last) record that has just been shrunk, or the packed end computed by the compaction pass (which then
+    clears the free list).  A truncation point taken from anywhere else - e.g. the start of a preceding *free* region -
+    leaves the in-memory free index pointing past the end of the file: the next two inserts overlap."""
+    fa = ctx.facts
+    n = 0
+    from lib import inline
+    for b in sorted(fa.find(r"^agdb::storage::Storage::"), key=lambda x: x.npath):
+        b = inline.inlined(fa, b)
+        for i, t in cfg.calls(b):
+            if common.norm(cfg.callee(t) or "") != S + "truncate" or len(t["a"]) < 2:
+                continue
+            n += 1
+            o = cfg.op_origin(b, t["a"][1])
+            kind = None
+            if o and o[1] and o[1][-1] in (".pos",):
+                kind = "record.pos"
+            dc = cfg.def_call(b, o[0]) if o and not o[1] else None
+            if dc and common.norm(cfg.callee(dc[1]) or "").endswith("StorageRecord::end"):
+                kind = "record.end()"
+            if kind is None:
+                # any position is fine when the free index is emptied right afterwards (the compaction pass)
+                cf = cfg.call_blocks(b, [REC + "clear_free"])
+                okb, errb, unk = cfg.ret_class_blocks(b)
+                if cf and cfg.find_path(b, [i], (okb + unk) or cfg.return_blocks(b), avoid=cf, leave_start=True) is None:
+                    kind = "the compaction cursor (the free list is cleared afterwards on every success path)"
+            ctx.ob(rule, "%s:truncate#%d" % (common.norm(b.npath).split("::")[-1], n), kind is not None,
+                   "truncates at %s" % kind if kind else
+                   "`%s` truncates the file at a position that is neither the removed record's start, nor a record's end, nor "
+                   "the compaction cursor: a free region cut off by the truncation stays in the free index and is handed out "
+                   "again beyond the end of the file" % common.norm(b.npath), b.loc(i))
+    ctx.floor(rule, "Storage::truncate call sites", n, 3)
+
+
 def run(ctx):
     fa = ctx.facts
     n = 0
@@ -164,4 +200,5 @@ def run(ctx):
     ctx.floor("R04d", "guards of left-over free headers", n_left, 3)
 
     optimize_rule(ctx)
+    truncate_rule(ctx)
     return 0
